@@ -635,6 +635,11 @@ func lexNegative(l *lexer) stateFn {
 		lastType == itemLeftDelim ||
 		lastType == itemCase ||
 		lastType == itemComma ||
+		lastType == itemColon ||
+		lastType == itemLeftBracket ||
+		lastType == itemQuestionKey ||
+		(lastType > itemCommand && lastType < itemSpecialChar) ||
+		(lastType == itemIdent && l.lastEmit.val == "in") ||
 		lastType == itemLeftParen {
 		// is it a negative number?
 		if l.peek() >= '0' && l.peek() <= '9' {
